@@ -62,6 +62,7 @@ type OtherOptions struct {
 	Compressions []string `json:"compressions"`
 	NoCompress   bool     `json:"no_compress,omitempty"`
 	MaxMsg       uint32   `json:"max_msg,omitempty"`
+	EmptyTypes   bool     `json:"empty_types,omitempty"` // WithTypeResolver(a resolver that knows no type): Any payloads of this service cannot be expanded
 }
 
 func (o *OtherOptions) options() []vanguard.ServiceOption {
@@ -72,6 +73,9 @@ func (o *OtherOptions) options() []vanguard.ServiceOption {
 	so := serviceOptions(Config{Protocols: o.Protocols, Codecs: o.Codecs, Compressions: comp, MaxMsg: o.MaxMsg})
 	if o.NoCompress {
 		so = append(so, vanguard.WithNoTargetCompression())
+	}
+	if o.EmptyTypes {
+		so = append(so, vanguard.WithTypeResolver(emptyResolver{}))
 	}
 	return so
 }
@@ -153,6 +157,7 @@ type Backend struct {
 	IgnoreReadErr bool    `json:"ignore_read_err,omitempty"` // answer per script even if reading the request failed
 	CloseBody     bool    `json:"close_body,omitempty"`      // call Request.Body.Close() after reading, before answering (as proxies do)
 	CloseAfterWrites int  `json:"close_after_writes,omitempty"` // with CloseBody: close only after this many response Write calls
+	CloseAgain    bool    `json:"close_again,omitempty"`     // with CloseBody: the body is closed once more when the handler has returned (net/http's server does that for every request)
 	CompressError    bool   `json:"compress_error,omitempty"` // Connect unary: the error JSON body is sent compressed, too
 	CompressEnd      bool   `json:"compress_end,omitempty"`  // gRPC-Web trailer frame / Connect end-of-stream frame sent compressed (flag bit 0)
 	TrailerCase      string `json:"trailer_case,omitempty"`  // spelling of the names in the Trailer announcement: "" canonical | lower | mixed | upper
@@ -759,6 +764,9 @@ func (br *benchRun) serviceHandler() http.Handler {
 		br.mu.Unlock()
 		if br.sc.Backend.Panic {
 			panic(scriptedPanic)
+		}
+		if br.sc.Backend.CloseBody && br.sc.Backend.CloseAgain {
+			defer func() { _ = r.Body.Close() }()
 		}
 		if br.script != nil {
 			br.script(w, r, view)
